@@ -39,7 +39,7 @@ TPodGet == IsEv("pod_get") /\ LET e == Log[l] IN PodGet(e.t, e.c, e.who, e.n, e.
 TList   == IsEv("rec_list") /\ LET e == Log[l] IN RecList(e.t, e.c)
 TWrite  == IsEv("pe_write") /\ LET e == Log[l] IN PeWrite(e.t, e.c, e.who, e.n, PeOf(e.post))
 TCloud  == IsEv("cloud") /\ LET e == Log[l] IN
-              \/ e.op = "create" /\ CloudCreate(e.t, e.c, e.who, e.e, e.ours)
+              \/ e.op = "create" /\ CloudCreate(e.t, e.c, e.who, e.e, e.ours, e.created)
               \/ e.op = "attach" /\ CloudAttach(e.t, e.e, e.inst, e.effect)
               \/ e.op = "detach" /\ CloudDetach(e.t, e.c, e.who, e.e, e.effect)
               \/ e.op = "delete" /\ CloudDelete(e.t, e.c, e.who, e.e, e.effect)
